@@ -694,6 +694,62 @@ func jsonNearSyntaxDocs() []c06Placed {
 	return r
 }
 
+// jsonNumbersAsNames: numbers in places where JSON has NAMES or where a reader
+// might take a value for a size / position: every array of the documents
+// respelt as an object keyed by position ({"0": .., "1": ..}) with huge,
+// negative, fractional and exponent positions; every object given members
+// whose names are such numbers; string values that are such numbers.
+func jsonNumbersAsNames() []c06Placed {
+	nums := []string{"0", "1", "4000000", "900000000000", "4294967295", "4294967296", "2147483648", "18446744073709551615", "18446744073709551616", "9223372036854775807", "-1", "1e9", "1E9", "0x7fffffff", "007", strings.Repeat("9", 400)}
+	var r []c06Placed
+	for _, base := range c05JSONBases() {
+		root, err := parseJN(base.doc)
+		if err != nil {
+			continue
+		}
+		fam := "json"
+		if base.name == "ShapeFlat" {
+			fam = "enc-json"
+		}
+		for si, sl := range jsonSlots(root) {
+			cur := sl.get()
+			for ni, n := range nums {
+				var repl *jn
+				switch cur.kind {
+				case 'a':
+					// the list as an object keyed by position: the first
+					// element at 0 and one at the huge position
+					o := &jn{kind: 'o'}
+					for i, it := range cur.items {
+						o.keys, o.vals = append(o.keys, fmt.Sprint(i)), append(o.vals, it)
+					}
+					var last *jn = jNull()
+					if len(cur.items) > 0 {
+						last = cur.items[0]
+					}
+					o.keys, o.vals = append(o.keys, n), append(o.vals, last)
+					repl = o
+				case 'o':
+					o := &jn{kind: 'o', keys: append([]string{}, cur.keys...), vals: append([]*jn{}, cur.vals...)}
+					o.keys, o.vals = append(o.keys, n), append(o.vals, jNum("1"))
+					repl = o
+				case 's':
+					if si%4 != 0 {
+						continue
+					}
+					repl = jStr(n)
+				default:
+					continue
+				}
+				c := root.clone()
+				jsonSlots(c)[si].set(repl)
+				r = append(r, c06Placed{fam, fmt.Sprintf("numbers-as-names/%s/%s#%d", base.name, sl.path, ni), []byte(c.String())})
+			}
+		}
+	}
+	return r
+}
+
 // manyMemberErrorDocs: documents of up to 60 KB with thousands of members
 // (JSON) / entries (CBOR) that take an ERROR path of the dispatching decoders:
 // an unregistered profile, profile members naming two profiles, a profile of
@@ -1070,9 +1126,9 @@ func c06Report(t testing.TB, pl *c06Pool, v string, in c06In) {
 }
 
 func TestC06_Bombs(t *testing.T) {
-	st := NewStats("C06", "TestC06_Bombs", "enumeration, measured in an address-space-limited single-goroutine worker process (TotalAlloc delta and wall time per input): header bombs = every major type 2..6 x additional-info 24..27 x declared length in {0x80,0xff,2^8,2^16-1,2^16,2^24,2^31,2^32-1,2^32,2^63,2^64-1} x 0..16 following bytes, placed at top level and at every structural position of a valid token of both profiles (5 claim values, a component field, an unknown key's value, COSE payload / protected / unprotected / signature / tag content / protected-header content / unprotected-header value); declared lengths that wrap around when converted or added (2^64-k for k=1..16 and others, 2^63+-k, 2^32-k, 2^31+-k) as value / key / element of definite and indefinite-length containers; claims documents with two members changed at once (one null / empty, one of a wrong type); documents with thousands of members that take an error path of the dispatching decoders (unregistered / double / wrong-typed profile, wrong-typed claim); JSON numbers with exponents up to 10^9 and 60000-digit spellings in every numeric member; what JSON does not have (line / block comments terminated or running into the end of the input, byte order marks, trailing commas, NaN ...) before, inside and after the claims documents and alone; nesting of arrays, maps, tags, indefinite containers to depth 8..32000 and JSON arrays/objects to depth 8..65536 (closed and unclosed, top level and inside claims); 4 KiB..60 KiB strings, 1000..16000-key maps (distinct and duplicate keys), 700-component and 60000-null component lists; every 1- and 2-byte input that starts with a tag head and valid documents wrapped 1..3 deep in 42 tag numbers of every head width (termination of the hand-written tag skipping). Every input goes to every entry point of its family (COSE, claims CBOR incl. per-type unmarshal and extension types, claims JSON, populate helpers). Violation: a call allocates more than 1 MiB + 1 KiB per input byte, or takes > 5 s (re-measured in 3 fresh processes), or the worker dies with an out-of-memory fatal error. Non-trivial = declares more data than it carries, or nests >= 8 deep, or >= 4 KiB; distinct = family + input")
+	st := NewStats("C06", "TestC06_Bombs", "enumeration, measured in an address-space-limited single-goroutine worker process (TotalAlloc delta and wall time per input): header bombs = every major type 2..6 x additional-info 24..27 x declared length in {0x80,0xff,2^8,2^16-1,2^16,2^24,2^31,2^32-1,2^32,2^63,2^64-1} x 0..16 following bytes, placed at top level and at every structural position of a valid token of both profiles (5 claim values, a component field, an unknown key's value, COSE payload / protected / unprotected / signature / tag content / protected-header content / unprotected-header value); declared lengths that wrap around when converted or added (2^64-k for k=1..16 and others, 2^63+-k, 2^32-k, 2^31+-k) as value / key / element of definite and indefinite-length containers; claims documents with two members changed at once (one null / empty, one of a wrong type); documents with thousands of members that take an error path of the dispatching decoders (unregistered / double / wrong-typed profile, wrong-typed claim); JSON numbers with exponents up to 10^9 and 60000-digit spellings in every numeric member; what JSON does not have (line / block comments terminated or running into the end of the input, byte order marks, trailing commas, NaN ...) before, inside and after the claims documents and alone; every JSON array respelt as an object keyed by (huge / negative / exponent) positions and objects with such numbers as member names; nesting of arrays, maps, tags, indefinite containers to depth 8..32000 and JSON arrays/objects to depth 8..65536 (closed and unclosed, top level and inside claims); 4 KiB..60 KiB strings, 1000..16000-key maps (distinct and duplicate keys), 700-component and 60000-null component lists; every 1- and 2-byte input that starts with a tag head and valid documents wrapped 1..3 deep in 42 tag numbers of every head width (termination of the hand-written tag skipping). Every input goes to every entry point of its family (COSE, claims CBOR incl. per-type unmarshal and extension types, claims JSON, populate helpers). Violation: a call allocates more than 1 MiB + 1 KiB per input byte, or takes > 5 s (re-measured in 3 fresh processes), or the worker dies with an out-of-memory fatal error. Non-trivial = declares more data than it carries, or nests >= 8 deep, or >= 4 KiB; distinct = family + input")
 	st.Exhaustive = true
-	st.Require = []string{"bomb", "wrap-around", "member-pair", "json-number", "many-members-error-path", "json-near-syntax", "nesting", "big", "tag-wrapped", "error-path", "family=cbor", "family=cose", "family=json", "family=enc-cbor", "family=enc-json"}
+	st.Require = []string{"bomb", "wrap-around", "member-pair", "json-number", "many-members-error-path", "json-near-syntax", "json-numbers-as-names", "nesting", "big", "tag-wrapped", "error-path", "family=cbor", "family=cose", "family=json", "family=enc-cbor", "family=enc-json"}
 	defer st.Flush(t)
 	pl := &c06Pool{}
 	defer pl.drop()
@@ -1106,6 +1162,9 @@ func TestC06_Bombs(t *testing.T) {
 	}
 	for _, p := range jsonNearSyntaxDocs() {
 		run(p, "json-near-syntax")
+	}
+	for _, p := range jsonNumbersAsNames() {
+		run(p, "json-numbers-as-names")
 	}
 	for _, p := range nestings() {
 		run(p, "nesting")
